@@ -5,6 +5,8 @@ usage: applyfix.py <name> <key-substring> [<key-substring> ...]"""
 import subprocess, sys, re, os
 V = os.path.dirname(os.path.dirname(os.path.abspath(__file__)))
 name, keys = sys.argv[1], sys.argv[2:]
+props = [name.split("-")[0]] + [k[1:] for k in keys if k.startswith("+C")]  # "+C02" adds a property
+keys = [k for k in keys if not k.startswith("+C")]
 diff, msg = "/tmp/fix/%s.diff" % name, "/tmp/fix/%s.msg" % name
 assert open(msg).read().startswith("fix: "), "message must start with fix:"
 st = subprocess.run(["git", "-C", "/repo", "status", "--porcelain", "--untracked-files=no"], capture_output=True, text=True).stdout
@@ -17,7 +19,7 @@ p = os.path.join(V, "known_findings.txt")
 out, n = [], 0
 for l in open(p):
     m = re.match(r"known:\s+property=(\S+)\s+key=(\S+)\s+(.*)", l)
-    if m and any(k in m.group(2) for k in keys):
+    if m and m.group(1) in props and any(k in m.group(2) for k in keys):
         out.append("fixed: property=%s %s %s\n" % (m.group(1), rev, m.group(3))); n += 1
     else:
         out.append(l)
